@@ -297,6 +297,8 @@ class Gen:
     def some_key(self):
         """a key for a query or a malformed call: live, dead, never issued, or a path used as an oid"""
         r = self.rng.random()
+        if not self.malformed:
+            r = r * 0.84
         if r < 0.6 and self.live:
             return self.live[self.rng.choice(list(self.live))][1]
         if r < 0.75 and self.dead_keys:
@@ -333,7 +335,9 @@ class Gen:
             return ("mkdir", self.case_variant(d) + (n,))
         if x < 0.58:
             os_ = self.objs()
-            if bad or not os_:
+            if not bad and not os_:
+                return ("mkdir", (self.fresh_name(()),))
+            if bad:
                 return ("rename", self.some_key(), self.some_path())
             src = rng.choice(os_)
             kind, key = self.live[src][0], self.live[src][1]
@@ -355,12 +359,16 @@ class Gen:
             return ("rename", key, self.case_variant(d) + (n,))
         if x < 0.68:
             fs = self.objs("f")
-            if bad or not fs:
+            if not bad and not fs:
+                return ("create", (self.fresh_name(()),), rng.randrange(len(POOL)))
+            if bad:
                 return ("upload", self.some_key(), rng.randrange(len(POOL)))
             return ("upload", self.live[rng.choice(fs)][1], rng.choice(TOK_BY_CLASS[rng.randrange(4)]))
         if x < 0.78:
             os_ = self.objs()
-            if bad or not os_:
+            if not bad and not os_:
+                return ("create", (self.fresh_name(()),), rng.randrange(len(POOL)))
+            if bad:
                 return ("delete", self.some_key())
             return ("delete", self.live[rng.choice(os_)][1])
         if x < 0.95:
